@@ -116,13 +116,13 @@ def main(argv):
             if itt in ("E", "P"):
                 key = "C12:valid-skeleton-rejected" if itt == "E" else "C12:panic"
                 what = "valid filter %r (%s) %s" % (filt.decode("latin-1"), mode, "is rejected" if itt == "E" else "panics")
-            elif has_not:
-                key = "C12:not-grouping"
-                what = "filter %r (%s atoms): truth table %s, expected %s" % (filt.decode("latin-1"), mode, itt, stt)
             elif mixed:
                 key = "C12:and-over-or"
                 what = "filter %r (%s atoms): `and` does not bind tighter than `or`: truth table %s, expected %s" % (
                     filt.decode("latin-1"), mode, itt, stt)
+            elif has_not:
+                key = "C12:not-grouping"
+                what = "filter %r (%s atoms): truth table %s, expected %s" % (filt.decode("latin-1"), mode, itt, stt)
             else:
                 key = "C12:grouping"
                 what = "filter %r (%s atoms): truth table %s, expected %s" % (filt.decode("latin-1"), mode, itt, stt)
@@ -131,8 +131,11 @@ def main(argv):
         if kind == "W":
             ibase, mbase = fi[4], fm[7]
             if ibase != itt:
-                c.violation("C12:respelling", "re-spelled filter %r and its base %r differ: %s vs %s" % (
-                    filt.decode("latin-1"), unhex(cf[6]).decode("latin-1"), itt, ibase), rep)
+                base = unhex(cf[6]).decode("latin-1")
+                low = base.lower().split()
+                key = "C12:and-over-or" if ("and" in low and "or" in low and ibase not in ("E", "P")) else "C12:respelling"
+                c.violation(key, "filter %r and its re-spelling %r (same skeleton; case / white space / redundant parentheses) differ: %s vs %s; expected %s" % (
+                    base, filt.decode("latin-1"), ibase, itt, stt), dict(rep, truth_table_base=ibase, base_filter=base))
                 continue
             if mbase != ibase:
                 disagreements.append((case, i, m, "base filter"))
